@@ -235,6 +235,15 @@ struct C23 : vf::Engine {
                 try { return m.getValue(s); } catch (const std::exception& e) {
                     if (mf.fired <= measFaultFired) throw;      // not ours
                     measFaultFired = mf.fired; failedOnce = true; ++retried; return m.getValue(s); } };
+            // which is asked first at this returned state is up to the client: on every other return the first time derivative of
+            // each formula measure that offers one is read before any value (exact closed forms)
+            if ((nret & 1) == 0) for (size_t i = 0; i < tr.n.size() && !res.violation; ++i) {
+                if (M[i].getNumTimeDerivatives() < 1 || tr.n[i].type == 7) continue;
+                double got, want = tr.ev((int)i, t, 1);
+                try { got = M[i].getValue(s, 1); } catch (const std::exception& e) { continue; }
+                if (!(std::abs(got - want) <= 1e-10 * (1 + std::abs(want)))) res.fail("formula-derivative-wrong", isig + " measure=formula type=" + std::to_string(tr.n[i].type), "first time derivative of node " + std::to_string(i) + " (type " + std::to_string(tr.n[i].type) + ") = " + S(got) + " expected " + S(want) + ctx);
+                res.count("probe_derivative_read_before_value");
+            }
             // formula measures: exact
             for (size_t i = 0; i < tr.n.size() && !res.violation; ++i) {
                 bool f1 = false; double got, want = tr.ev((int)i, t, 0);
